@@ -456,6 +456,13 @@ func topFrame(stack string) string {
 	return "?"
 }
 
+func firstLineOf(s string) string {
+	if i := strings.IndexByte(s, '\n'); i >= 0 {
+		return s[:i]
+	}
+	return s
+}
+
 func panicSig(msg, stack string) string {
 	return msgClass(msg) + " @ " + topFrame(stack)
 }
@@ -477,6 +484,15 @@ func CrashSig(logTail, lastCase string) string {
 	line := crashLineRE.FindString(logTail)
 	if line == "" {
 		line = "unknown"
+	}
+	// "panic: X [recovered]\n\tpanic: Y": Y is what killed the process
+	for strings.HasSuffix(line, "[recovered]") {
+		i := strings.Index(logTail, line)
+		rest := strings.TrimLeft(logTail[i+len(line):], "\n\t ")
+		if !strings.HasPrefix(rest, "panic: ") {
+			break
+		}
+		line = firstLineOf(rest)
 	}
 	frame := "?"
 	if i := strings.Index(logTail, line); i >= 0 {
